@@ -285,6 +285,20 @@ proof fn lemma_rev_stdout(a: State, mid: State, fin: State, n: nat)
         assert(rev_w(&b, &mid, k + n));
     }
 }
+// the bit builder (verified in unit bitstr) and the zip/cycle walk of bitstr-and/or/xor (ASSUMED std meaning, lengths only)
+#[verifier::external_body] pub struct BitvecBuilder { _p: u8 }
+impl BitvecBuilder {
+    pub uninterp spec fn bits(&self) -> Seq<bool>;
+    #[verifier::external_body] pub fn default() -> (r: BitvecBuilder) ensures r.bits() == Seq::<bool>::empty() { unimplemented!() }
+    #[verifier::external_body] pub fn finish(self) -> (r: Bitstr) ensures r.view() == self.bits() { unimplemented!() }
+}
+#[verifier::external_body] fn verif_zip_cycle<F: Fn(u8, u8) -> u8>(sa: &Bitstr, sb: &Bitstr, tmp: &mut BitvecBuilder, op: F)
+    ensures final(tmp).bits().len() == old(tmp).bits().len() + (if sb.view().len() == 0 { 0 } else { sa.view().len() })
+{ unimplemented!() }
+//@use cursor.fns ::bitstring_zip_with
+//@use cursor.fns ::bitstring_and
+//@use cursor.fns ::bitstring_or
+//@use cursor.fns ::bitstring_xor
 //@use cursor.fns ::intercept_output
 // ASSUMED stubs: UTF-8 decoding (String::from_utf8 + error bookkeeping), the file system
 #[verifier::external_body] fn decode_utf8_str(bytes: Vec<u8>) -> Xresult1<String> { unimplemented!() }
@@ -557,6 +571,9 @@ fn lemma_zero85_pair(xs: &mut State)
 //@use words.fns ::load#w_bitstr_toutf8
 //@use words.fns ::load#w_write_all
 //@use words.fns ::load#w_read_all
+//@use words.fns ::load#w_bitstr_and
+//@use words.fns ::load#w_bitstr_or
+//@use words.fns ::load#w_bitstr_xor
 // the data words of the word table (Rword)
 //@use words.fns ::load#w_u8
 //@use words.fns ::load#w_u8_bang
